@@ -103,5 +103,34 @@ def run(ctx):
             ctx.violation('same-T-same-v', 'main', i,
                           {'type': describe(ty), 'py_type2': short(T2, 300), 'value': short(v, 400), 'first': out.brief(), 'second': out2.brief(), 'why': why},
                           mech='outcome-depends-on-more-than-T-and-v')
+    # equal-as-sets unions in both member orders inside short-lived builtin aliases, alternating in one process:
+    # the verdict may depend on nothing but T and v, also when an "equal" type was converted just before
+    from ..tyast import Ty
+    pairs = (('int', 'float'), ('bool', 'int'), ('int', 'str'), ('float', 'complex'), ('str', 'fraction'), ('str', 'date'), ('int', 'decimal'))
+    for i in range(max(40, ctx.budget // 20)):
+        if not ctx.want('pairs', i):
+            continue
+        rng = ctx.rng('pairs', i)
+        a, b = rng.choice(pairs)
+        wrap = rng.choice(('list', 'dict', 'tup', 'set', 'seq'))
+
+        def mk(x, y):
+            u = Ty('union', [Ty(x), Ty(y)])
+            return {'list': Ty('list', [u]), 'dict': Ty('dict', [Ty('str'), u]), 'tup': Ty('tup', [u, Ty('int')]),
+                    'set': Ty('set', [u], res='frozenset'), 'seq': Ty('seq', [u])}[wrap]
+        try:
+            with ctx.deadline(20, 'pairs', i):
+                for ty in (mk(a, b), mk(b, a), mk(a, b), mk(b, a)):
+                    T, err = build_type(ty, rng)
+                    if err is not None:
+                        ctx.count('type_build_failed')
+                        continue
+                    ctx.count('order_pair_types')
+                    for _ in range(3):
+                        cls_, v = genval.case_values(ty, rng, small=True)
+                        check_case(ctx, 'pairs', i, ty, T, v, cls_)
+                    del T
+        except Exception as e:
+            ctx.crash('pairs', i, e)
     for k, n in model.unspec_uses.items():
         ctx.count(f"unspec[{k}]", n)
